@@ -405,9 +405,11 @@ class PrintRunner:
     NR = len(OPS) - 1         # `pranges n` (final call skipped on a full array) or `pranges N` (always made): probe_nextrange
     EXACT = ["pexact r +2", "pexact d +2"]
 
-    # the literal buffer sizes of the two fixed callers (Print.lean WCOLL_STR / XLIST_BUF)
-    LITERALS = [("src/pdsh/opt.c", r"char\s+wcoll_str\[1024\]"), ("src/pdsh/opt.c", r"size_t\s+n\s*=\s*4096;"),
-                ("src/pdsh/opt.c", r"hostlist_ranged_string \(hl, n-1, s\)")]
+    # the literal sizes of list_push_hostlist's first block (Print.lean XLIST_BUF): only the UNREPAIRED retry condition makes
+    # them observable (the 4095-byte threshold, probed behaviourally by xlist_check); a changed literal is a note, not an
+    # alarm.  opt_list's display buffer is NOT read from the source at all: its capacity is measured on the real binary
+    # (PrintCli.display_capacity) and handed to the model - how big a caller's buffer is is the caller's policy.
+    LITERALS = [("src/pdsh/opt.c", r"size_t\s+n\s*=\s*4096;"), ("src/pdsh/opt.c", r"hostlist_ranged_string \(hl, n-1, s\)")]
 
     def __init__(self, ctx):
         self.ctx = ctx
@@ -442,9 +444,8 @@ class PrintRunner:
             except OSError as e:
                 src = ""
             if not re.search(pat, src):
-                self.ctx.broken.append(("C-BROKEN", "opt.c buffer literals",
-                                        "%s no longer contains /%s/: the sizes in Hostlist/Print.lean (WCOLL_STR, XLIST_BUF) "
-                                        "must be re-read" % (f, pat)))
+                self.ctx.notes.append("%s no longer contains /%s/: list_push_hostlist's first block size (Print.lean XLIST_BUF) "
+                                      "is judged by behaviour only" % (f, pat))
         # built here (not through HL.build): that one also re-reads the parser's buffer literals, C01/C15's concern
         from vlib.common import HARNESS
         return self.ctx.cc(self.exe, [os.path.join(HARNESS, "hl_harness.c")], san=True, assertions=True)
@@ -527,6 +528,36 @@ def stop_pdsh_builds(builds):
         builds.wait()
 
 
+def numeric_list(want, tail_adjust=True):
+    """an expression of numeric ranges (cheap for pdsh at any size: every record shrinks and grows at its ends only) whose
+    EXPANDED text has exactly `want` bytes (>= 64): blocks `pa[1-N]`, `pb[1-N]`, .. and a final plain name that pads the
+    text to the byte.  Returns (expression, expanded text)."""
+    names, parts, total, k = [], [], 0, 0
+    while True:
+        pre = b"p" + bytes([97 + k % 26]) + (b"%d_" % (k // 26) if k >= 26 else b"")
+        block = [pre + b"%d" % i for i in range(1, 16385)]
+        size = sum(len(x) + 1 for x in block)
+        if total + size + 40 > want:
+            # a partial block, then the padding name
+            i = 0
+            while i < len(block) and total + len(block[i]) + 1 + 40 <= want:
+                total += len(block[i]) + 1
+                i += 1
+            if i:
+                names += block[:i]
+                parts.append(pre + b"[1-%d]" % i if i > 1 else block[0])
+            break
+        names += block
+        parts.append(pre + b"[1-16384]")
+        total += size
+        k += 1
+    pad = want - total
+    last = b"z" * max(pad, 1)
+    names.append(last)
+    parts.append(last)
+    return b",".join(parts), b",".join(names)
+
+
 class PrintCli:
     def __init__(self, ctx, builds=None):
         self.ctx = ctx
@@ -580,6 +611,28 @@ class PrintCli:
             return p.returncode, p.stdout, p.stderr
         except subprocess.TimeoutExpired as e:
             return "timeout", e.stdout or b"", e.stderr or b""
+
+    def display_capacity(self, limit=1 << 22):
+        """the caller policy of opt_list as it can be OBSERVED: the display capacity = size of the last buffer it hands to
+        the printing function.  `pdsh -Q` on numeric ranges whose expanded text has 1100, 2200, 4400, .. bytes: the first
+        listing that ends in [truncated] after P characters gives capacity P + 1 (the code as found: 1024); None when
+        nothing below `limit` bytes is truncated (a caller that grows without bound).  Returns (capacity, problems)."""
+        want, problems = 1100, []
+        while want <= 2 * limit:
+            expr, text = numeric_list(want)
+            cls, line = self.targets("-Q", ["-w", expr.decode()], timeout=120)
+            if cls != "ok" or line is None:
+                problems.append("pdsh -Q on a %d-byte list: %s" % (len(text), cls))
+                return 1024, problems
+            if line == text:
+                want *= 2
+                continue
+            if line.endswith(b"[truncated]") and text.startswith(line[:-11]) and len(line) - 11 < len(text):
+                return len(line) - 11 + 1, problems
+            problems.append("pdsh -Q on a %d-byte list prints neither the list nor a marked prefix: `..%s`" %
+                            (len(text), line[-60:]))
+            return 1024, problems
+        return None, problems
 
     def targets(self, flag, wargs, timeout=20, asan=False):
         """pdsh -q|-Q -w ... -> (class, last line of the listing | None)"""
